@@ -131,6 +131,8 @@ class MemPool:
 
 
 def mem_budget_gb():
+    if os.environ.get('VERIF_MEM_GB'):
+        return float(os.environ['VERIF_MEM_GB'])
     try:
         for ln in open('/proc/meminfo'):
             if ln.startswith('MemAvailable'):
@@ -241,9 +243,9 @@ class Check:
         rt = os.path.join(wd, 'native_rt.o')
         must(['clang-14', '-O1', '-c', os.path.join(TOOLS, 'native_rt.c'), '-o', rt], 'native_rt')
         real = os.path.join(wd, 'real')
-        must(['clang++-14', '-O1', nred, rt, '-o', real, '-rdynamic', '-ldl', '-w'], 'native real link', timeout=1800)
+        must(['clang++-14', '-O1', nred, rt, '-o', real, '-rdynamic', '-ldl', '-w', '-Wl,--unresolved-symbols=ignore-all'], 'native real link', timeout=1800)
         xlat = os.path.join(wd, 'xlat')
-        must(['clang-14', '-O1', '-w', '-I' + INC, c] + extra + [os.path.join(TOOLS, 'native_rt.c'), '-o', xlat, '-rdynamic', '-ldl'], 'native xlat build', timeout=1800)
+        must(['clang-14', '-O1', '-w', '-I' + INC, c] + extra + [os.path.join(TOOLS, 'native_rt.c'), '-o', xlat, '-rdynamic', '-ldl', '-Wl,--unresolved-symbols=ignore-all'], 'native xlat build', timeout=1800)
         info['build_s'] = round(time.time() - t0, 1)
         self.built[uname] = dict(wd=wd, gb=gb, real=real, xlat=xlat, info=info)
         return info
@@ -256,7 +258,7 @@ class Check:
         entries = [h.fn for h in self.spec.HARNESSES if h.unit == uname]
         red = self.link_bc(unit, 'san', b['wd'], entries + ['main'])
         san = os.path.join(b['wd'], 'real_san')
-        must(['clang++-14', '-O1', '-g', '-fsanitize=address,undefined', red, os.path.join(b['wd'], 'native_rt.o'), '-o', san, '-rdynamic', '-ldl', '-w'], 'native san link', timeout=1800)
+        must(['clang++-14', '-O1', '-g', '-fsanitize=address,undefined', red, os.path.join(b['wd'], 'native_rt.o'), '-o', san, '-rdynamic', '-ldl', '-w', '-Wl,--unresolved-symbols=ignore-all'], 'native san link', timeout=1800)
         b['san'] = san
         return san
 
@@ -351,6 +353,9 @@ class Check:
         vac = [p for p in wit if p['status'] != 'FAILURE']
         if vac:
             res['verdict'] = 'INCONCLUSIVE'; res['why'] = 'vacuous: witness %s not reachable' % vac[0]['desc']; return res
+        nobody = [p for p in rest if p['status'] != 'SUCCESS' and p['desc'].startswith('no body for callee')]
+        if nobody:
+            res['verdict'] = 'INCONCLUSIVE'; res['why'] = 'harness reaches code that is not encoded: ' + ', '.join(sorted(set(p['desc'] for p in nobody)))[:600]; return res
         fails = [p for p in rest if p['status'] != 'SUCCESS']
         res['failed'] = [dict(p) for p in fails]
         res['verdict'] = 'FAIL' if fails else 'PASS'
